@@ -67,7 +67,7 @@ def compare(case, run):
     if not run.get("cleaned_up", True):
         ideal.append("temporary extraction directory still present after CleanUp")
     final = case["expect"][-1]
-    if "squashed" in run and run.get("squashed") is not None:
+    if lim == 0 and "squashed" in run and run.get("squashed") is not None:   # the unpacker's own size rule is not part of C04/C10
         want = [k if k in ("f1", "f2") else "-" for k in final]
         # a path below a symlinked directory or the symlink itself is not a regular file
         if run.get("squash_err"):
@@ -95,7 +95,7 @@ def compare(case, run):
     return ideal, (not asb)
 
 
-def run_family(ck, cfgs, timeout=1800, allvariants=False):
+def run_family(ck, cfgs, timeout=1800, allvariants=False, limit_only=False):
     total = 0
     for c in cfgs:
         r = vf.require_ok(vf.tlc("LayerOverlay", c, timeout=timeout), c)
@@ -113,6 +113,9 @@ def run_family(ck, cfgs, timeout=1800, allvariants=False):
                 nt += 1
             for run in o["runs"]:
                 ideal, asbuilt_ok = compare(case, run)
+                if limit_only and case["devs"]:
+                    # C10 judges the byte limit; view differences inside C04's open finding classes are C04's business
+                    ideal = [m for m in ideal if ("byte limit" in m or "written to disk" in m or "CleanUp" in m or "panic" in m or "load failed" in m)]
                 if not ideal:
                     continue
                 devs = case["devs"]
@@ -133,7 +136,7 @@ def run_family(ck, cfgs, timeout=1800, allvariants=False):
                     continue
                 if len(ck.violations) < 60:
                     ck.violation("%s [%s %s]: %s" % (ck.prop, c, run["variant"], "; ".join(ideal[:3])),
-                                 {"family": "overlay", "cfg": c, "case": case, "observed": run, "mismatch": ideal, "asbuilt_explains": asbuilt_ok})
+                                 {"family": "image", "cfg": c, "case": case, "observed": run, "mismatch": ideal, "asbuilt_explains": asbuilt_ok})
                 else:
                     ck.violations.append(("(more)", {"n": len(ck.violations)}))
         ck.count(sum(len(o["runs"]) for o in obs))
